@@ -76,14 +76,29 @@ Section SeqLemmas.
     rewrite IH. destruct (fresh_elems el dflt data s1) as [[r s2]|e]; reflexivity.
   Qed.
 
+  Lemma reset_false_eq c d s : reset_unloaded el dflt false c d s = el c d s.
+  Proof. unfold reset_unloaded. destruct (el c d s) as [[[v ld] s1]|e]; reflexivity. Qed.
+
+  (* the two loops of SerializeContainer, given what the first-loop body (with its reset) satisfies *)
   Section Independent.
+    Variable asg : bool.
     Variable Q : A -> Prop.
     Variable P : D -> Prop.
-    Hypothesis Hind : prior_independent el dflt Q P.
+    Hypothesis Hr : prior_independent (reset_unloaded el dflt asg) dflt Q P.
+    Hypothesis Hfresh : forall d s, P d -> reset_unloaded el dflt asg dflt d s = el dflt d s.
     Hypothesis Qd : Q dflt.
 
+    Lemma fresh_elems_reset data : forall s, Forall P data ->
+      fresh_elems (reset_unloaded el dflt asg) dflt data s = fresh_elems el dflt data s.
+    Proof.
+      induction data as [|d data IH]; intros s HP; [reflexivity|].
+      inversion HP; subst. cbn [fresh_elems]. rewrite Hfresh by assumption.
+      destruct (el dflt d s) as [[[v ld] s1]|e]; cbn [bind]; [|reflexivity].
+      rewrite IH by assumption. reflexivity.
+    Qed.
+
     Lemma load_existing_spec cont : forall data s, Forall Q cont -> Forall P data ->
-      load_existing el cont data s =
+      load_existing el dflt asg cont data s =
         ('(vs, s') <- fresh_elems el dflt (firstn (length cont) data) s ;;
          Ok (vs ++ skipn (length data) cont, skipn (length cont) data, Nat.min (length cont) (length data), s')).
     Proof.
@@ -91,14 +106,14 @@ Section SeqLemmas.
       - cbn. destruct data; reflexivity.
       - destruct data as [|d data]; [reflexivity|].
         inversion HQ; subst. inversion HP; subst. cbn [load_existing length firstn fresh_elems].
-        rewrite (Hind c d s) by assumption.
+        rewrite (Hr c d s) by assumption. rewrite Hfresh by assumption.
         destruct (el dflt d s) as [[[v ld] s1]|e]; cbn [bind]; [|reflexivity].
         rewrite IH by assumption.
         destruct (fresh_elems el dflt (firstn (length cont) data) s1) as [[r s2]|e]; reflexivity.
     Qed.
 
     Lemma load_loops_spec cont0 data s : Forall Q cont0 -> Forall P data ->
-      load_loops el dflt cont0 data s = fresh_elems el dflt data s.
+      load_loops el dflt asg cont0 data s = fresh_elems el dflt data s.
     Proof.
       intros HQ HP. unfold load_loops.
       rewrite load_existing_spec by assumption.
@@ -129,14 +144,14 @@ Section SeqLemmas.
     Qed.
 
     Lemma load_seq_spec prior est data s : Forall Q prior -> Forall P data ->
-      load_seq el dflt prior est data s = fresh_elems el dflt data s.
+      load_seq el dflt asg prior est data s = fresh_elems el dflt data s.
     Proof.
       intros HQ HP. unfold load_seq. apply load_loops_spec; [|exact HP].
       destruct (Nat.eqb est 0); [exact HQ | apply Forall_resize; exact HQ].
     Qed.
 
     Lemma load_fwd_spec prior est data s : Forall Q prior -> Forall P data ->
-      load_fwd el dflt prior est data s = fresh_elems el dflt data s.
+      load_fwd el dflt asg prior est data s = fresh_elems el dflt data s.
     Proof.
       intros HQ HP. unfold load_fwd. apply load_loops_spec; [|exact HP].
       destruct (Nat.eqb est 0).
@@ -145,8 +160,42 @@ Section SeqLemmas.
     Qed.
 
     Lemma load_valarray_spec prior est data s : Forall P data ->
-      load_valarray el dflt prior est data s = fresh_elems el dflt data s.
+      load_valarray el dflt asg prior est data s = fresh_elems el dflt data s.
     Proof. intros HP. unfold load_valarray. apply load_seq_spec; [constructor | exact HP]. Qed.
+  End Independent.
+
+  (* element type not assignable (old behaviour): the loader itself must ignore the prior value *)
+  Lemma reset_false_independent Q P : prior_independent el dflt Q P ->
+    prior_independent (reset_unloaded el dflt false) dflt Q P /\
+    (forall d s, P d -> reset_unloaded el dflt false dflt d s = el dflt d s).
+  Proof.
+    intros Hi. split.
+    - intros p d s Hq Hp. rewrite !reset_false_eq. apply Hi; assumption.
+    - intros d s _. apply reset_false_eq.
+  Qed.
+
+  (* element type assignable: enough that the loader's exceptions, "loaded" result, state, and value
+     when loaded ignore the prior value *)
+  Lemma reset_true_independent Q P :
+    prior_independent_when_loaded el dflt Q P -> unloaded_keeps_fresh el dflt P ->
+    prior_independent (reset_unloaded el dflt true) dflt Q P /\
+    (forall d s, P d -> reset_unloaded el dflt true dflt d s = el dflt d s).
+  Proof.
+    intros Hw Hk. split.
+    - intros p d s Hq Hp. specialize (Hw p d s Hq Hp). unfold reset_unloaded, agree_when_loaded in *.
+      destruct (el p d s) as [[[v1 [|]] s1]|e1]; destruct (el dflt d s) as [[[v2 [|]] s2]|e2];
+        cbn in Hw; cbn [bind andb negb]; try contradiction;
+        try (destruct Hw; subst; reflexivity); try (subst; reflexivity).
+    - intros d s Hp. unfold reset_unloaded.
+      destruct (el dflt d s) as [[[v l] s1]|e] eqn:E; cbn [bind]; [|reflexivity].
+      destruct l; cbn [andb negb]; [reflexivity|].
+      rewrite (Hk d s v s1 Hp E). reflexivity.
+  Qed.
+
+  Section StrongIndependent.
+    Variable Q : A -> Prop.
+    Variable P : D -> Prop.
+    Hypothesis Hind : prior_independent el dflt Q P.
 
     Lemma load_fixed_indep cont1 : forall cont2 data s,
       Forall Q cont1 -> Forall Q cont2 -> length cont1 = length cont2 -> Forall P data ->
@@ -166,10 +215,10 @@ Section SeqLemmas.
     Lemma load_ptr_indep (p : A) d s : Q p -> P d ->
       load_ptr el dflt (Some p) d s = load_ptr el dflt None d s.
     Proof. intros Hq Hp. unfold load_ptr. rewrite (Hind p d s) by assumption. reflexivity. Qed.
-  End Independent.
+  End StrongIndependent.
 
   (* sets and multimaps clear the target first: the prior content is never looked at *)
-  Lemma load_set_prior ins sc prior data s : load_set el dflt ins sc prior data s = load_set el dflt ins sc [] data s.
+  Lemma load_set_prior ins prior data s : load_set el dflt ins prior data s = load_set el dflt ins [] data s.
   Proof. reflexivity. Qed.
   Lemma load_mmap_prior prior data s : load_mmap el dflt prior data s = load_mmap el dflt [] data s.
   Proof. reflexivity. Qed.
